@@ -32,6 +32,11 @@ STATS = [('Mean', 'mean'), ('Geom. Mean', 'gmean'), ('Median', 'median'), ('Mode
 
 
 def cases(tier, seed):
+    # (0) two calibrations with different clustering channels, each resolvable in its own channel only: as two bead rows
+    #     of one workbook, and as two workbooks analysed one after the other.  These come first so that each is the first
+    #     thing its worker process executes (state leaked by earlier calls of the same process cannot mask the effect).
+    yield dict(kind='sequence', mode='one-workbook')
+    yield dict(kind='sequence', mode='two-workbooks')
     # (A) the complete product of unit spellings on one row, nine rows per workbook
     pairs = list(itertools.product(range(len(UNITS)), repeat=2))
     for i in range(0, len(pairs), 9):
@@ -39,27 +44,50 @@ def cases(tier, seed):
     if tier == 'thorough':
         for i in range(0, len(pairs), 9):
             yield dict(kind='units', pairs=pairs[i:i + 9], cont='float', hist=True)
+        for i in range(0, len(pairs), 27):
+            yield dict(kind='units', pairs=pairs[i:i + 27], cont='double', hist=True)
     # (B) experiments within a deviation bound
-    dims = [('ninst', [1, 2, 3]), ('nbeads', [1, 0, 2]), ('nsamples', [2, 1, 3, 4]), ('gf', [0.85, 0.3, 1.0]), ('cont', ['int', 'float']),
+    dims = [('ninst', [1, 2, 3]), ('nbeads', [1, 0, 2]), ('nsamples', [2, 1, 3, 4]), ('gf', [0.85, 0.3, 1.0]), ('cont', ['int', 'float', 'double']),
             ('neg', [False, True]), ('hist', [True, False]), ('units', ['mixed', 'all-mef', 'none', 'channel']),
             ('res', ['same', 'mixed']), ('cluster', ['all', 'second-only', 'first-only'])]
     for cfg in explore.deviations(dims, 1 if tier == 'quick' else 2):
         yield dict(kind='experiment', cfg=cfg)
 
 
+
 def bounds(tier, seed):
     return {'unit_spellings': UNITS, 'experiment_deviation_bound': 1 if tier == 'quick' else 2}
 
 
+def build_sequence(c, d, which):
+    """which: list of calibration indices (0: resolved in FL1 only, 1: resolved in FL2 only) to put into this workbook"""
+    inst = wg.instrument(0)
+    beads, samples = [], []
+    for k in which:
+        lay, truth = wg.bead_layout(inst, stream=80 + k, container='int', flat_channels=[1 - k])
+        wg.write_fcs(os.path.join(d, 'beads_seq%d.fcs' % k), lay)
+        ch = inst['fl'][k]
+        beads.append(dict(id='BQ%d' % k, inst=inst['id'], file='beads_seq%d.fcs' % k, gate_fraction=0.3, cluster=ch,
+                          mef={ch: wg.mef_string(truth, k)}, inst_obj=inst))
+        wg.write_fcs(os.path.join(d, 'cells_seq%d.fcs' % k), wg.cell_layout(inst, stream=90 + k, container='int', n=850))
+        samples.append(dict(id='SQ%d' % k, inst=inst['id'], beads='BQ%d' % k, file='cells_seq%d.fcs' % k, gate_fraction=0.85,
+                            units={ch: 'MEF', inst['fl'][1 - k]: 'RFI'}, inst_obj=inst))
+    wb = os.path.join(d, 'experiment_%s.xlsx' % ''.join(map(str, which)))
+    wg.write_workbook(wb, [inst], beads, samples, mef_channels_cols=list(inst['fl']), unit_channels_cols=list(inst['fl']))
+    return wb, [inst], beads, samples, True
+
+
 def build_experiment(c, d):
     """writes files + workbook into d; returns (workbook path, instruments, bead rows, sample rows, truth per bead row)"""
+    if c['kind'] == 'sequence':
+        return build_sequence(c, d, c['which'])
     if c['kind'] == 'units':
         insts = [wg.instrument(0)]
         lay, truth = wg.bead_layout(insts[0], stream=5, container=c['cont'])
         wg.write_fcs(os.path.join(d, 'beads0.fcs'), lay)
         beads = [dict(id='B1', inst='INST1', file='beads0.fcs', gate_fraction=0.3, cluster=', '.join(insts[0]['fl']),
                       mef={ch: wg.mef_string(truth, ci) for ci, ch in enumerate(insts[0]['fl'])}, inst_obj=insts[0])]
-        wg.write_fcs(os.path.join(d, 'cells0.fcs'), wg.cell_layout(insts[0], stream=31, container=c['cont'], negatives=c['cont'] == 'float'))
+        wg.write_fcs(os.path.join(d, 'cells0.fcs'), wg.cell_layout(insts[0], stream=31, container=c['cont'], negatives=c['cont'] != 'int'))
         samples = []
         for k, (u1, u2) in enumerate(c['pairs']):
             samples.append(dict(id='S%02d' % k, inst='INST1', beads='B1', file='cells0.fcs', gate_fraction=[0.85, 0.5, 1.0][k % 3],
@@ -74,13 +102,15 @@ def build_experiment(c, d):
             resl = [1024, 256] if cfg.get('res') == 'mixed' else None
             lay, truth = wg.bead_layout(inst, stream=40 + k, container=cfg['cont'], res=resl)
             wg.write_fcs(os.path.join(d, 'beads%d.fcs' % k), lay)
-            clus = {'all': ', '.join(inst['fl']), 'second-only': inst['fl'][1], 'first-only': inst['fl'][0]}[cfg.get('cluster', 'all')]
+            # bead rows of one table differ in their clustering channels (row 1: as configured, row 2: the other choice)
+            cchoice = cfg.get('cluster', 'all') if k == 0 else {'all': 'second-only', 'second-only': 'all', 'first-only': 'all'}[cfg.get('cluster', 'all')]
+            clus = {'all': ', '.join(inst['fl']), 'second-only': inst['fl'][1], 'first-only': inst['fl'][0]}[cchoice]
             beads.append(dict(id='B%d' % (k + 1), inst=inst['id'], file='beads%d.fcs' % k, gate_fraction=[0.3, 0.5][k % 2], cluster=clus,
                               mef={ch: wg.mef_string(truth, ci) for ci, ch in enumerate(inst['fl'])}, inst_obj=inst))
         samples = []
         for k in range(cfg['nsamples']):
             inst = insts[k % len(insts)]
-            wg.write_fcs(os.path.join(d, 'sub', 'cells%d.fcs' % k), wg.cell_layout(inst, stream=50 + k, container=cfg['cont'], negatives=cfg['neg'] and cfg['cont'] == 'float',
+            wg.write_fcs(os.path.join(d, 'sub', 'cells%d.fcs' % k), wg.cell_layout(inst, stream=50 + k, container=cfg['cont'], negatives=cfg['neg'] and cfg['cont'] != 'int',
                                                                                   n=800 + 150 * k, level=150.0 + 60 * k,
                                                                                   res=[1024, 256] if cfg.get('res') == 'mixed' else None))
             mybeads = [b for b in beads if b['inst'] == inst['id']]
@@ -94,7 +124,7 @@ def build_experiment(c, d):
                 u = ['Channel', 'channel']
             if not mybeads:
                 u = [x if (x or '').lower() != 'mef' else 'RFI' for x in u]
-            samples.append(dict(id='S%d' % (k + 1), inst=inst['id'], beads=mybeads[0]['id'] if mybeads else None, file='sub/cells%d.fcs' % k,
+            samples.append(dict(id='S%d' % (k + 1), inst=inst['id'], beads=mybeads[(k // max(1, len(insts))) % len(mybeads)]['id'] if mybeads else None, file='sub/cells%d.fcs' % k,
                                 gate_fraction=cfg['gf'], units={inst['fl'][0]: u[0], inst['fl'][1]: u[1]}, inst_obj=inst))
         hist = cfg['hist']
     wb = os.path.join(d, 'experiment.xlsx')
@@ -171,6 +201,17 @@ _N = [0]
 
 
 def run_case(c):
+    if c['kind'] == 'sequence' and 'which' not in c:
+        res = Result()
+        parts = [[0, 1]] if c['mode'] == 'one-workbook' else [[0], [1]]
+        for which in parts:
+            sub = run_case(dict(c, which=which))
+            res.n += sub.n
+            res.nontrivial += sub.nontrivial
+            res.classes.update(sub.classes)
+            res.violations.extend(sub.violations)
+            res.samples = sub.samples
+        return res
     import FlowCal
     ui = FlowCal.excel_ui
     res = Result()
@@ -272,7 +313,7 @@ def run_case(c):
                             ok = False
                 if ok:
                     res.ok('row:%s' % ('+'.join(sorted(set((u or 'none').lower() for u in srow['units'].values())))), bool(report) or hand.shape[0] < s.shape[0] + 1)
-            res.sample({'case': c if c['kind'] == 'experiment' else {'kind': 'units', 'pairs': [[UNITS[a], UNITS[b]] for a, b in c['pairs']], 'cont': c['cont']}})
+            res.sample({'case': c if c['kind'] != 'units' else {'kind': 'units', 'pairs': [[UNITS[a], UNITS[b]] for a, b in c['pairs']], 'cont': c['cont']}})
     finally:
         shutil.rmtree(d, ignore_errors=True)
     return res
